@@ -55,6 +55,8 @@ def col_role(e):
 
 def run(ctx, col, tier):
     repo = ctx.repo
+    from ..rules import smalllints2 as _s2
+    _s2.run_framecast(ctx, col, ('swcgeom.core.swc_utils.normalizer', 'swcgeom.core.swc_utils.io', 'swcgeom.core.tree_utils', 'swcgeom.core.swc_utils.assembler'))
     from ..rules import endpoints as _endpoints
     _endpoints.run(ctx, col, ('swcgeom.core.tree', 'swcgeom.core.path', 'swcgeom.core.branch', 'swcgeom.core.node', 'swcgeom.core.tree_utils', 'swcgeom.core.tree_utils_impl', 'swcgeom.core.swc_utils.base', 'swcgeom.core.swc_utils.subtree', 'swcgeom.core.swc_utils.normalizer', 'swcgeom.core.swc_utils.io'))
     from ..rules import sortedness as _sortedness
